@@ -148,7 +148,11 @@ package dastard
 //@   ensures typeis(data, RecordSlice) ==> len(unbox(data, RecordSlice)) == old(len(unbox(data, RecordSlice)))
 //@   ensures typeis(data, RecordSlice) ==> (forall p int :: {at(unbox(data, RecordSlice), p)} unbox(data, RecordSlice).off <= p && p < unbox(data, RecordSlice).off + len(unbox(data, RecordSlice)) ==>
 //@        unbox(data, RecordSlice).off <= perm[p] && perm[p] < unbox(data, RecordSlice).off + len(unbox(data, RecordSlice)) && at(unbox(data, RecordSlice), p) == oldat(unbox(data, RecordSlice), perm[p]))
-//@   modifies unbox(data, RecordSlice)[*]
+//@   ensures !typeis(data, RecordSlice) ==> (forall p int :: {at(unbox(data, RecordSlice), p)} at(unbox(data, RecordSlice), p) == oldat(unbox(data, RecordSlice), p))
+//@   ensures typeis(data, FrameIdxSlice) ==> (forall p int :: {at(unbox(data, FrameIdxSlice), p)} unbox(data, FrameIdxSlice).off <= p && p < unbox(data, FrameIdxSlice).off + len(unbox(data, FrameIdxSlice)) ==>
+//@        unbox(data, FrameIdxSlice).off <= perm[p] && perm[p] < unbox(data, FrameIdxSlice).off + len(unbox(data, FrameIdxSlice)) && at(unbox(data, FrameIdxSlice), p) == oldat(unbox(data, FrameIdxSlice), perm[p]))
+//@   ensures !typeis(data, FrameIdxSlice) ==> (forall p int :: {at(unbox(data, FrameIdxSlice), p)} at(unbox(data, FrameIdxSlice), p) == oldat(unbox(data, FrameIdxSlice), p))
+//@   modifies unbox(data, RecordSlice)[*], unbox(data, FrameIdxSlice)[*]
 
 //@ func (*DataStreamProcessor).firstPotentialAutoTriggerFrame
 //@   props C01 C02
